@@ -44,6 +44,44 @@ CLAIMED = {
             "Tie to code: random histories applied through the public API on function, gate, interrupt and nested-graph nodes, compared with the model "
             "and judged by a ground-truth oracle.",
             BASE_NOTE + "Whole-interpreter alpha-equivariance is exercised by correspondence only.", "DESIGN.md §7 C06"),
+    "C08": ("proof", "Lean 4 proof: set reasoning over the input-spec model; validate-before-execute + correspondence over configurations x omitted inputs",
+            "Kernel-checked over arbitrary graphs: required/optional/entry-point parameters are pairwise disjoint and exactly characterised; bind removes from required "
+            "and adds to optional, unbind restores; a rejected call produces no run at all (validation strictly precedes execution); run-time select names are validated; "
+            "acyclic sufficiency; an accepted call covers every required name except through the bypass rule; inner bindings surface only under the wrapper's current "
+            "names (negative witness for the repaired leak). Tie: generated graphs x bind/select/with_entrypoint/run-time select, all required supplied vs each single "
+            "required omitted (MissingInputError, zero calls, zero events), both runners.",
+            BASE_NOTE + "necessary_partial carries NoOutputProvided (bypass rule); sufficient_dag assumes bound keys lie in the spec (see DESIGN findings).", "DESIGN.md §7 C08"),
+    "C09": ("proof", "Lean 4 proof: LRU refinement to a map; HMAC gate under an arbitrary adversary; cache-sound invariant + correspondence (op logs, disk scenarios, cached vs uncached runs)",
+            "Kernel-checked: the LRU never exceeds max_size, returns only the latest value stored under the key, retains recently used keys; DiskCache.get is total, "
+            "deserialises only authenticated bytes, treats every other state (bit flip, truncation, type change, missing slot, torn write, stale tag) as a miss and evicts; "
+            "no forgery under MAC assumptions; the repaired key is injective in definition/class/outputs/targets/arguments; cached execution equals uncached execution under "
+            "CacheSound and never re-invokes on a hit. Tie: programs with cacheable subsets x {unbounded, LRU 1-4, disk} x run sequences across both runners vs uncached "
+            "runs; recorded get/set logs replayed through the LRU model; disk scenarios with a pickle.loads spy vs the disk model.",
+            BASE_NOTE + "SHA-256 collision freedom, HMAC unforgeability, pickle and diskcache are assumptions. Known finding C09-F1 (pickle memo makes keys identity-sensitive).", "DESIGN.md §7 C09"),
+    "C12": ("proof", "Lean 4 proof: runs generate a span-tree grammar; grammar implies flat well-nestedness; per-span orderings survive interleaving + correspondence with a span-tree oracle",
+            "Kernel-checked for every program, runner, completion order and nesting depth: the event log of a terminated run is a trace of the span-tree grammar (RunStart first, "
+            "RunEnd last with the observed status, every NodeStart closed once, children inside parents, nested runs parented to the launching node, route decisions inside "
+            "their node), shutdown exactly once for top-level calls, none for nested ones, paused runs have no RunEnd; the grammar implies the flat properties and they are "
+            "preserved by interleaving sibling blocks. Tie: all generators under run/map, both runners, async under random completion orders, recording processor + oracle.",
+            BASE_NOTE + "Strict grammar assumes interrupt-free programs; known findings C12-F1 (empty map silent) and C12-F2 (async failure beside a pausing sibling leaves open spans).", "DESIGN.md §7 C12"),
+    "C13": ("proof", "Lean 4 proof: absorption lemma for emit; non-interference of processor outcomes + correspondence per failing event index",
+            "Kernel-checked on the dispatcher model: emit/shutdown call every processor exactly once in order whatever Exceptions they raise; every processor receives the "
+            "complete stream; a run's result does not depend on the processors; BaseExceptions propagate (outside the claim). Tie: for each generated execution with m events, "
+            "re-runs with a processor failing at each index, always, and at shutdown (sync and async processors, both runners) vs the processor-free run; healthy recorder "
+            "sees the full stream; the real EventDispatcher driven directly vs the model.",
+            BASE_NOTE + "The tie between the dispatcher model and the ~dozen real emission sites is the per-index correspondence, not a theorem.", "DESIGN.md §7 C13"),
+    "C14": ("proof", "Lean 4 proof: isolation of the interrupt step, pause state = pre-step state, seeded-run convergence (resume = auto-answer) + correspondence over pause/resume histories",
+            "Kernel-checked: a paused run returns PAUSED with the interrupt's identity, first input value and output name and the values computed before the pausing step; an "
+            "interrupt runs alone in its step; executed nodes had all their inputs, so nothing needing the interrupt's output ran; the resume path skips the handler; for acyclic "
+            "programs re-running with the response supplied equals the run whose handler answers directly (any completion orders); nested pauses are path-qualified; one pause "
+            "at a time. Tie: DAGs with 1-3 interrupts, every pause/resume history vs the auto-answer run, nested pause identity, on the controllable loop.",
+            BASE_NOTE + "Known finding C14-F1: nested resume keys are produced but never consumed.", "DESIGN.md §7 C14"),
+    "C15": ("proof", "Lean 4 proof: transition-system invariant (holding + free = k), progress and measure + correspondence with adversarial schedules",
+            "Kernel-checked for every k >= 1 and every nest/map shape: at most k leaves hold a permit, every non-final reachable state has an enabled transition, every schedule "
+            "has length 2 x leaves and ends with all done, final state independent of k; the hold-while-awaiting variant deadlocks (negative witness); worker pool bound. Tie: "
+            "generated nest/map shapes x k in 1..4 x fifo/lifo/random release policies on the controllable loop: in-flight counter <= k, termination, same result as the "
+            "unlimited run; the observed start/finish trace is replayed through the Lean model.",
+            BASE_NOTE + "asyncio.Semaphore fairness assumed; known finding C15-F1: async interrupt handlers run outside the permit.", "DESIGN.md §7 C15"),
     "C10": ("proof", "Lean 4 proof: list laws for zip/product, alignment of collected lists, sort-of-permutation + correspondence under random completion orders",
             "Kernel-checked: zip is position-wise with equal lengths enforced, product is row-major with length = product of lengths, every output list of a mapping node has "
             "one entry per combination (None for failed/missing), first failing item's error raised in input order, order restoration from completion order, item i of map = "
